@@ -5,6 +5,7 @@ import ChiaModel.Drv.C05
 import ChiaModel.Drv.C07
 import ChiaModel.Drv.C08
 import ChiaModel.Drv.C09
+import ChiaModel.Drv.C10
 import ChiaModel.Drv.C12
 import ChiaModel.Drv.C13
 import ChiaModel.Drv.C16
@@ -28,6 +29,7 @@ def dispatch (line : String) : String :=
   | "C07" :: rest => C07.handle ("C07" :: rest)
   | "C08" :: rest => C08.handle ("C08" :: rest)
   | "C09" :: rest => C09.handle ("C09" :: rest)
+  | "C10" :: rest => C10.handle ("C10" :: rest)
   | "C12" :: rest => C12.handle ("C12" :: rest)
   | "C16" :: rest => C16.handle ("C16" :: rest)
   | "C13" :: rest => C13.handle ("C13" :: rest)
